@@ -30,7 +30,7 @@ CHECKS['C04'] = dict(
     note='lxml parsing is external (the harness parses with its own options); parseSection_flat is stated for parses that succeed (error precedence between a missing interface file and a bad type is not characterised); <Default> values are modelled only as accepted/refused.',
     design='§5 C04')
 CHECKS['C05'] = dict(
-    technique='Lean 4 invariant/frame theorems over the world model (step_frame, step_wf, play_wf, entityProperty_lww, property_history_lww and the general entity_fold over whole histories: an entity's state is the fold of its own packets - updates, nested updates, positions, calls - among arbitrary packets for others; player_id_base) + differential play of generated histories in 4 dialects (world compared after every packet) + recordings through the model as independent decoder',
+    technique='Lean 4 invariant/frame theorems over the world model (step_frame, step_wf, play_wf, entityProperty_lww, property_history_lww and the general entity_fold over whole histories: the state of an entity is the fold of its own packets - updates, nested updates, positions, calls - among arbitrary packets for others; player_id_base) + differential play of generated histories in 4 dialects (world compared after every packet) + recordings through the model as independent decoder',
     text='C05 theorems: every packet changes at most the entity it addresses (all dialects, all packets, failing or not); the id-table invariant holds in every reachable world; a property update stores exactly the decoded value under that name (dict laws give last-writer-wins per property); the base-player id is reported. The world model is tied to the real players by generated histories (model vs implementation after each packet, and against a plain dict LWW interpreter) and by the final worlds of real recordings.',
     note='entity_fold starts from any world in which the entity exists: a (re-)creation packet for the same id splits a history into segments joined by the per-step creation theorems; the own-player position packet (two entities) is covered per step in C08; correspondence is sampled; recording controller via the documented _get_controller/_get_definitions extension points.',
     design='§5 C05')
@@ -73,9 +73,9 @@ CHECKS['C11'] = dict(
     design='§5 C11')
 
 CHECKS['C09'] = dict(
-    technique='Lean 4 theorems about the controller fold (deaths_ordered, achievements_count, shots_damage_sum, planes_count, roster_merge/roster_frame, field_frame_*, map_prefix/map_no_prefix, battle_result_last) and from the bytes of the stream (Extract model: deaths_of_stream, player_of_stream, eventOfCall_isCall) + the model decoding each wows battle with that version's own definition files and extracting the same events + synthetic battles for every bundled version compared with the model and with a naive fold',
+    technique='Lean 4 theorems about the controller fold (deaths_ordered, achievements_count, shots_damage_sum, planes_count, roster_merge/roster_frame, field_frame_*, map_prefix/map_no_prefix, battle_result_last) and from the bytes of the stream (Extract model: deaths_of_stream, player_of_stream, eventOfCall_isCall) + the model decoding each wows battle with the definition files of that version and extracting the same events + synthetic battles for every bundled version compared with the model and with a naive fold',
     text='C09 theorems prove, for every event trace: the death list is the ordered sub-sequence of death events, achievement / plane / damage counters equal counts and sums over all matching events (counted each time), roster messages merge right-biased by id without touching other players, an event of one kind changes only its own fields, the map is the arena name minus the literal prefix. Tied to every bundled controller (76 wows, 2 wot, 3 wowp) by synthetic random battles encoded against that version\'s own definitions and packet numbering and parsed by ReplayParser(strict=True): summary through the shipped encoder vs the model\'s fold of the same events vs the generator\'s naive fold.',
-    note='partial: pickle and json are external; per-version argument shapes and key mappings are resolved by the generator (appendix C), the model is the fold all variants share; events inside pickled arguments (rosters, damage statistics) are outside the model; crew / task / control-point / death-info fields are generated non-trivially and compared with the tracker's final world through the version's own tables (oracle), not modelled in Lean.',
+    note='partial: pickle and json are external; per-version argument shapes and key mappings are resolved by the generator (appendix C), the model is the fold all variants share; events inside pickled arguments (rosters, damage statistics) are outside the model; crew / task / control-point / death-info fields are generated non-trivially and compared with the final world of the tracker through the tables of that version (oracle), not modelled in Lean.',
     design='§5 C09')
 CHECKS['C10'] = dict(
     technique='Lean 4 theorems about Python call binding (too_many_positional, unknown_keyword, missing_required, exact_arguments_bind) + exhaustive enumeration of every bundled version x every registered subscription (model bind vs inspect.Signature.bind) + one complete battle per version in strict mode',
